@@ -393,6 +393,10 @@ func registerStd(e *Engine, simple func(string, func(*Run, []Value) Value)) {
 		}}
 		return deferredResult{}, true
 	}
+	in[rtPkg+".QuiesceWait"] = func(r *Run, g *Goroutine, fv *FuncV, a []Value, retTo func(Value)) (Value, bool) {
+		r.invoke(g, &FuncV{fn: r.eng.pkgs[rtPkg].Func("QuiesceModel")}, nil, retTo)
+		return deferredResult{}, true
+	}
 	in[rtPkg+".QuiesceFor"] = func(r *Run, g *Goroutine, fv *FuncV, a []Value, retTo func(Value)) (Value, bool) {
 		r.invoke(g, &FuncV{fn: r.eng.pkgs[rtPkg].Func("QuiesceModel")}, nil, retTo)
 		return deferredResult{}, true
